@@ -50,3 +50,9 @@ claim("C10",
   "Trusted: go/ssa, SCCP evaluator with symbolic non-nil values. Not covered: literal conversion (ToTimeLiteral, locations), overflow at the sentinels, the meaning of OR between time bounds, parenthesised sub-conditions beyond the shared recursion.",
   "static analysis: table extraction by sparse conditional constant propagation on SSA with call hooks",
   "DESIGN.md 4/C10, 3/E1")
+
+claim("C18",
+  "Decides the structural clauses: the stripper recognises every comparison the splitter treats as a time bound (same operand sides, same case folding) - the necessary condition for 'every earlier bound is gone'; the appended window is `time >= start AND time < end` in UTC with RFC3339Nano, joined as `(<previous>) AND <window>` and stored through Reduce; Reduce's boolean short-cuts (which remove the `true` placeholders without touching other operands) form the AND/OR truth table; and the stripper's other arms keep their node (one known finding: every Call is replaced). That the condition does not grow over a sequence of calls is argued from these (placeholders fold away, parentheses are idempotent under Reduce) but is not itself decided.",
+  "Trusted: go/ssa, SCCP evaluator. Not covered: semantic equality with 'previous non-time part AND window' for every condition shape, growth over call sequences, OR between time bounds.",
+  "static analysis: recogniser comparison and format/flow checks on SSA + SCCP truth table of the fold short-cuts",
+  "DESIGN.md 4/C18")
